@@ -61,7 +61,7 @@ _add(
          "variance is compared relatively only; (c) ISI of random rasters (time-first and time-last, ragged, empty); (d) Victor-Purpura laws on "
          "triples of spike-time vectors and against an independent dynamic programme. One evaluation = one "
          "(pair, sample time) / (distribution, parameters) / raster / triple; distinct = abstractions of those.",
-    required=["roundtrip_laws", "adjusted_bracket_laws", "linear_bracket_laws", "dist_laws", "isi_trains_checked", "vp_laws", "validity_queries", "narrow_moment_checks", "vp_cases_with_other_spike_time_dtypes", "roundtrips_with_nonfinite_brackets", "decay_roundtrips_with_a_stray_keyword", "isi_rasters_in_other_dtypes"],
+    required=["roundtrip_laws", "adjusted_bracket_laws", "linear_bracket_laws", "dist_laws", "isi_trains_checked", "vp_laws", "validity_queries", "narrow_moment_checks", "vp_cases_with_other_spike_time_dtypes", "roundtrips_with_nonfinite_brackets", "decay_roundtrips_with_a_stray_keyword", "isi_rasters_in_other_dtypes", "roundtrips_with_other_data_or_time_dtypes", "density_laws_at_extreme_scales", "vp_cases_with_other_cost_forms"],
     floor={"quick": 100, "thorough": 200},
     text="Held on every input explored: algebraic laws that tie the numerical helpers to each other and to their "
          "definitions are evaluated on the real functions over dense grids and random inputs; a law that fails is "
@@ -197,7 +197,7 @@ _add(
          "contracted with the weight with the forward output; lateral diagonal invariant after each of 4-14 random "
          "mutating operations (weight/delay assignment, updater application, clamp / normalise hooks, forward). "
          "distinct = geometry / shape-class abstractions.",
-    required=["forward_checks", "conv_geometries", "helper_checks", "lateral_diagonal_checks", "delayed_linear_cases", "initialiser_built_connections", "delayed_conv_cases", "bias_layout_checks", "conv_weights_assigned_in_other_memory_layouts", "linear_weights_assigned_in_other_memory_layouts", "initialiser_built_conv_connections", "lateral_same_object_assignments", "conv_built_with_zero_delay"],
+    required=["linear_forwards_at_a_reassigned_batch_size", "forward_checks", "conv_geometries", "helper_checks", "lateral_diagonal_checks", "delayed_linear_cases", "initialiser_built_connections", "delayed_conv_cases", "bias_layout_checks", "conv_weights_assigned_in_other_memory_layouts", "linear_weights_assigned_in_other_memory_layouts", "initialiser_built_conv_connections", "lateral_same_object_assignments", "conv_built_with_zero_delay"],
     floor={"quick": 150, "thorough": 3000},
     exhaustive={"thorough": ["conv2d: all square inputs 3..9, C,F in 1..3, kernels 1..3 x 1..3, stride 1..3, padding 0..2, dilation 1..2 with non-empty output"]},
     text="Held on every input and geometry explored: the real connections (float64) are driven with arbitrary real "
@@ -337,7 +337,7 @@ _add(
          "and compare every output and the complete final state (all state-dict entries incl. extras and non-persistent "
          "buffers) exactly. One evaluation = one checkpoint position; distinct = (layer, trainer, reducer, classifier, "
          "target kind, position class, delay, in-place).",
-    required=["cloned_targets", "checkpoint_positions_checked", "restored_steps_compared", "final_states_compared", "phase_mismatch_probes", "checkpoints_with_pending_updates", "checkpoints_of_histories_grown_by_setters", "checkpoints_after_in_place_changes_of_trainer_buffers", "checkpoints_with_a_monitor_reading_state_before_the_step", "checkpoints_with_a_difference_monitor"],
+    required=["checkpoints_loaded_a_second_time_after_the_first_replica_ran", "cloned_targets", "checkpoint_positions_checked", "restored_steps_compared", "final_states_compared", "phase_mismatch_probes", "checkpoints_with_pending_updates", "checkpoints_of_histories_grown_by_setters", "checkpoints_after_in_place_changes_of_trainer_buffers", "checkpoints_with_a_monitor_reading_state_before_the_step", "checkpoints_with_a_difference_monitor"],
     floor={"quick": 20, "thorough": 120},
     shards={"quick": 8, "thorough": 32},
     exhaustive={"quick": ["every checkpoint position k in 0..T of each generated run"], "thorough": ["every checkpoint position k in 0..T of each generated run"]},
@@ -356,7 +356,7 @@ _add(
          "configuration is compared (reported configuration, recordsz/dt/duration/inclusive of every internal "
          "RecordTensor, outputs from a cleared state on the same inputs). One evaluation = one assignment judged; "
          "distinct = (component kind, class, assigned attribute).",
-    required=["assignments_checked", "twin_comparisons", "output_comparisons", "assignments_after_use", "configured_dtype_checks", "resting_state_comparisons", "recurrent_layer_cases"],
+    required=["connection_maximum_delay_assignments", "assignments_checked", "twin_comparisons", "output_comparisons", "assignments_after_use", "configured_dtype_checks", "resting_state_comparisons", "recurrent_layer_cases"],
     floor={"quick": 40, "thorough": 80},
     text="Held on every assignment sequence explored: each real property setter reports the assigned value back, leaves "
          "every other reported attribute unchanged, and the setter-built object is indistinguishable - configuration, "
